@@ -62,6 +62,8 @@ def relp(p):
         p = os.path.join(os.getcwd(), p)
     p = os.path.normpath(p)
     root = STATE.root
+    if root == "/":
+        return p[1:] or "."
     if p == root:
         return "."
     if p.startswith(root + "/"):
@@ -582,7 +584,7 @@ _OS_HOOKS = [("stat", 1), ("lstat", 1), ("listdir", 1), ("scandir", 1), ("mkdir"
              ("utime", 1)]
 
 
-def install():
+def install(locks=True):
     if STATE.installed:
         return
     import hashstore.filehashstore as fhs
@@ -605,8 +607,9 @@ def install():
     io.open = _open
     fcntl.flock = _flock
     tempfile._name_sequence = NameSeq()
-    fhs.threading = _thread_ns()
-    fhs.multiprocessing = _mp_ns()
+    if locks:
+        fhs.threading = _thread_ns()
+        fhs.multiprocessing = _mp_ns()
     fhs.atexit = types.SimpleNamespace(register=lambda f, *a, **k: f)
     REAL["fhs.yaml"] = fhs.yaml
     fhs.yaml = _yaml_ns(fhs.yaml)
